@@ -445,7 +445,7 @@ Fixpoint base_trace (old : variant) (p : pstate) (tr : list plabel) : list label
 (* the inclusive id range `range` collected by the array loop of handle_recv_message *)
 Definition frame_range (s : ClientMgr.st) (fr : inframe) : option (N * N) :=
   match fr with
-  | FArray ms => match array_loop s ms [] None false with
+  | FArray ms => match array_run s ms [] None false with
                  | inl (_, _, Some r, _) => Some r
                  | _ => None
                  end
